@@ -333,7 +333,14 @@ pub fn worker(check: &dyn Check, tier: Tier, seed: u64, k: u64, n: u64, limit: O
         let case = check.gen(seed, i, tier);
         env.take_digest();
         let leaks_before = env.leak_failures.len();
-        let mut co = check.exec(&mut env, &case);
+        // a bug in an oracle must cost one case, not the rest of the worker's share
+        let mut co = match std::panic::catch_unwind(std::panic::AssertUnwindSafe(|| check.exec(&mut env, &case))) {
+            Ok(co) => co,
+            Err(p) => {
+                let msg = p.downcast_ref::<&str>().map(|s| s.to_string()).or_else(|| p.downcast_ref::<String>().cloned()).unwrap_or_else(|| "panic".into());
+                CaseOut { harness_error: Some(format!("oracle panicked: {}", msg)), ..Default::default() }
+            }
+        };
         co.digest = env.take_digest();
         if env.leak_failures.len() > leaks_before && co.harness_error.is_none() {
             co.harness_error = Some(env.leak_failures[leaks_before..].join("; "));
